@@ -13,6 +13,15 @@ LEAVES = {
     "L": {"n": 3, "traits": {"PartialEq", "Eq", "PartialOrd", "Ord", "Hash", "Clone", "Copy", "Debug", "Default"}},
     "F": {"n": 3, "traits": {"PartialEq", "PartialOrd", "Clone", "Copy", "Debug", "Default"}},   # 2 = NaN
     "S": {"n": 3, "traits": {"PartialEq", "Eq", "PartialOrd", "Ord", "Hash", "Clone", "Debug", "Default"}},
+    # payload types with niches / zero size (C04); no methods are defined for them
+    "bool": {"n": 2, "traits": {"PartialEq", "Eq", "PartialOrd", "Ord", "Hash", "Clone", "Copy", "Debug", "Default"}},
+    "char": {"n": 3, "traits": {"PartialEq", "Eq", "PartialOrd", "Ord", "Hash", "Clone", "Copy", "Debug", "Default"}},
+    "NZ": {"n": 3, "traits": {"PartialEq", "Eq", "PartialOrd", "Ord", "Hash", "Clone", "Copy", "Debug"}},
+    "RefU8": {"n": 3, "traits": {"PartialEq", "Eq", "PartialOrd", "Ord", "Hash", "Clone", "Copy", "Debug"}},
+    "OptBox": {"n": 3, "traits": {"PartialEq", "Eq", "PartialOrd", "Ord", "Hash", "Clone", "Debug", "Default"}},
+    "Inner": {"n": 3, "traits": {"PartialEq", "Eq", "PartialOrd", "Ord", "Hash", "Clone", "Copy", "Debug"}},
+    "Zst": {"n": 1, "traits": {"PartialEq", "Eq", "PartialOrd", "Ord", "Hash", "Clone", "Copy", "Debug", "Default"}},
+    "u8": {"n": 3, "traits": {"PartialEq", "Eq", "PartialOrd", "Ord", "Hash", "Clone", "Copy", "Debug", "Default"}},
 }
 
 PRELUDE = r'''
@@ -41,6 +50,27 @@ pub mod prelude {
     impl Leaf for S { const N: usize = 3;
         fn d(i: usize) -> S { S(["", "a", "b\nc"][i].to_string()) }
         fn id(&self) -> usize { match self.0.as_str() { "" => 0, "a" => 1, _ => 2 } } }
+
+    impl Leaf for bool { const N: usize = 2; fn d(i: usize) -> bool { i == 1 } fn id(&self) -> usize { *self as usize } }
+    impl Leaf for char { const N: usize = 3; fn d(i: usize) -> char { ['a', 'z', '\u{10ffff}'][i] }
+        fn id(&self) -> usize { match *self { 'a' => 0, 'z' => 1, _ => 2 } } }
+    pub type NZ = core::num::NonZeroU8;
+    impl Leaf for NZ { const N: usize = 3; fn d(i: usize) -> NZ { NZ::new([1u8, 2, 255][i]).unwrap() }
+        fn id(&self) -> usize { match self.get() { 1 => 0, 2 => 1, _ => 2 } } }
+    pub type RefU8 = &'static u8;
+    pub static REFS: [u8; 3] = [0, 1, 2];
+    impl Leaf for RefU8 { const N: usize = 3; fn d(i: usize) -> RefU8 { &REFS[i] } fn id(&self) -> usize { **self as usize } }
+    pub type OptBox = Option<Box<u8>>;
+    impl Leaf for OptBox { const N: usize = 3; fn d(i: usize) -> OptBox { [None, Some(Box::new(0)), Some(Box::new(9))][i].clone() }
+        fn id(&self) -> usize { match self { None => 0, Some(b) if **b == 0 => 1, _ => 2 } } }
+    #[derive(Clone, Copy, Debug, PartialEq, Eq, PartialOrd, Ord, Hash)]
+    pub enum Inner { X, Y(bool), Z }
+    impl Leaf for Inner { const N: usize = 3; fn d(i: usize) -> Inner { [Inner::X, Inner::Y(true), Inner::Z][i] }
+        fn id(&self) -> usize { match self { Inner::X => 0, Inner::Y(_) => 1, Inner::Z => 2 } } }
+    #[derive(Clone, Copy, Debug, PartialEq, Eq, PartialOrd, Ord, Hash, Default)]
+    pub struct Zst;
+    impl Leaf for Zst { const N: usize = 1; fn d(_: usize) -> Zst { Zst } fn id(&self) -> usize { 0 } }
+    impl Leaf for u8 { const N: usize = 3; fn d(i: usize) -> u8 { [0u8, 100, 200][i] } fn id(&self) -> usize { (*self / 100) as usize } }
 
     pub fn ord3(o: Ordering) -> &'static str { match o { Ordering::Less => "lt", Ordering::Equal => "eq", Ordering::Greater => "gt" } }
     pub fn oord3(o: Option<Ordering>) -> &'static str { match o { Some(o) => ord3(o), None => "none" } }
@@ -104,12 +134,21 @@ def leaf_table_code():
     for ty, info in LEAVES.items():
         n = info["n"]
         tr = info["traits"]
-        mid = METHOD_LEAVES.index(ty)
+        mid = METHOD_LEAVES.index(ty) if ty in METHOD_LEAVES else None
         cmp_e = "ord3(Ord::cmp(&a, &b))" if "Ord" in tr else "\"na\""
         pcmp_e = "oord3(PartialOrd::partial_cmp(&a, &b))" if "PartialOrd" in tr else "\"na\""
         out.append(f'''
-    for i in 0..{n} {{ for j in 0..{n} {{ let a = {ty}::d(i); let b = {ty}::d(j);
+    for i in 0..{n} {{ for j in 0..{n} {{ let a = <{ty} as Leaf>::d(i); let b = <{ty} as Leaf>::d(j);
         println!("[\\"rel\\",\\"{ty}\\",{{}},{{}},{{}},\\"{{}}\\",\\"{{}}\\"]", i, j, PartialEq::ne(&a, &b), {cmp_e}, {pcmp_e});
+    }} }}''')
+        if mid is None:
+            if "Hash" in tr:
+                out.append(f'''
+    for i in 0..{n} {{ let a = <{ty} as Leaf>::d(i);
+        println!("[\\"hashv\\",\\"{ty}\\",{{}},{{}}]", i, js(&rec(&a))); }}''')
+            continue
+        out.append(f'''
+    for i in 0..{n} {{ for j in 0..{n} {{ let a = {ty}::d(i); let b = {ty}::d(j);
         println!("[\\"methb\\",\\"eq\\",{mid},{{}},{{}},{{}}]", i, j, eq_m_{ty}(&a, &b));
         println!("[\\"metho\\",\\"cmp\\",{mid},{{}},{{}},\\"{{}}\\"]", i, j, ord3(cmp_m_{ty}(&a, &b)));
         println!("[\\"metho\\",\\"pcmp\\",{mid},{{}},{{}},\\"{{}}\\"]", i, j, oord3(pcmp_m_{ty}(&a, &b)));
@@ -147,6 +186,8 @@ class TypeDef:
         self.traits = []          # rendered trait metas at type level, in order
         self.extra_derives = []   # std derives supplying supertraits
         self.attr_src = []        # extra type-level attributes (repr, ...)
+        self.extra_items = []     # hand-written items next to the type (supertrait impls, ...)
+        self.extra_json = {}      # extra keys of the driver description
 
     # ---------------------------------------------------------------- rendering
     def render(self):
@@ -189,11 +230,12 @@ class TypeDef:
                 else:
                     vs.append("%s %s { %s }%s" % (a, v.name, fs, d))
             out.append("pub enum %s { %s }" % (self.name, ", ".join(vs)))
+        out += self.extra_items
         return "\n".join(out)
 
     def value_expr(self, k, ids):
         v = self.variants[k]
-        args = ["%s::d(%d)" % (f.ty, i) for f, i in zip(v.fields, ids)]
+        args = ["<%s as Leaf>::d(%d)" % (f.ty, i) for f, i in zip(v.fields, ids)]
         head = self.name if self.kind == "struct" else "%s::%s" % (self.name, v.name)
         if v.shape == "unit":
             return head
@@ -208,7 +250,7 @@ class TypeDef:
             for key, t in traits:
                 d[key] = f.req.get(t, {})
             return d
-        return {"kind": self.kind, "name": self.name,
+        return {**self.extra_json, "kind": self.kind, "name": self.name,
                 "variants": [{"name": v.name, "shape": v.shape, "disc": v.disc,
                               "fields": [fj(f) for f in v.fields]} for v in self.variants]}
 
